@@ -295,8 +295,8 @@ def explore_all(ctx, prop, exe_san, exe, variant, cov, dist):
             n = rng.randrange(2, 6)
             f = rng.randrange(1, n) if rng.random() < 0.85 else n
             keys = rng.choices(["ok", "ok2", "hang-after", "chatty", "chatty-odd", "chatty-ends", "outlives", "stubborn",
-                                "cmd-far", "cmd-over", "hang-connect", "refuse", "close-out-early", "silent"],
-                               [14, 6, 10, 8, 6, 5, 10, 10, 6, 4, 5, 4, 4, 4], k=n)
+                                "cmd-far", "cmd-over", "hang-connect", "refuse", "close-out-early", "silent", "lingers"],
+                               [14, 6, 10, 8, 6, 5, 10, 10, 6, 4, 5, 4, 4, 4, 6], k=n)
             c = T.mk_case([A[k] for k in keys], f, ct, ut, rng.random() < 0.4, rng.randrange(1, 1 << 30),
                           strategy=rng.choice(["uniform", "uniform", "starveD", "eagerD"]))
             c["timed"] = True
